@@ -195,7 +195,7 @@ def run_unit(unit_name, extra_args=(), keep=True, inject=None, inject_false=None
         if l.get('prelude'):
             continue
         reg = next((r for r in regions if r['name'] == l['region']), None)
-        props = [l['label'].split('.')[0]] if re.match(r'C\d\d', l['label']) else (reg or {}).get('props') or unit_props
+        props = ([l['label'].split('.')[0]] + l.get('also', [])) if re.match(r'C\d\d', l['label']) else (reg or {}).get('props') or unit_props
         obl.append({'label': l['label'], 'region': l['region'], 'props': props, 'kind': 'clause',
                     'gen_line': l['line0'], 'src': (reg or {}).get('src', '')})
     for r in regions:
